@@ -45,6 +45,7 @@ type SrcColl struct {
 
 // Source is safe for concurrent use.
 type Source struct {
+	sendMu sync.Mutex // serialises (timestamp allocation + append) of data messages against TickAll
 	w      *World
 	keys   *catalog.Catalog
 	mu     sync.Mutex
@@ -267,8 +268,21 @@ func (s *Source) Send(pchannel string, msgs ...msgstream.TsMsg) ([]uint64, error
 	return s.w.Up.Send(pchannel, msgs...)
 }
 
+// SendStamped allocates a timestamp, builds the message with it and appends it to the pchannel as ONE step with
+// respect to TickAll: a Milvus channel never carries a time tick that is older than a message appended before it
+// (with TS() and Send() as separate steps a concurrent TickAll could slip its older tick in between).
+func (s *Source) SendStamped(pchannel string, build func(ts uint64) msgstream.TsMsg) ([]uint64, uint64, error) {
+	s.sendMu.Lock()
+	defer s.sendMu.Unlock()
+	ts := s.TS()
+	ids, err := s.w.Up.Send(pchannel, build(ts))
+	return ids, ts, err
+}
+
 // TickAll appends a time tick with a fresh timestamp to every given physical channel.
 func (s *Source) TickAll(pchannels []string) (uint64, error) {
+	s.sendMu.Lock()
+	defer s.sendMu.Unlock()
 	ts := s.TS()
 	for _, p := range pchannels {
 		if _, err := s.w.Up.Tick(p, ts); err != nil {
